@@ -127,6 +127,18 @@ def as_c_type(t, c_base):
     return t
 
 
+def attr_scalar_retyped(a, b):
+    """True iff the two summaries differ only in attribute values that are a number on one
+    side and the text of that number on the other (+name=2 re-rendered as +name(2))."""
+    def norm(s):
+        s = dict(s)
+        s["attrs"] = {k: (str(v) if isinstance(v, (int, float)) and v is not True else v) for k, v in s["attrs"].items()}
+        if s["params"] is not None:
+            s["params"] = [norm(p) for p in s["params"]]
+        return s
+    return diff_summary(norm(a), norm(b)) is None
+
+
 def jsonable(x):
     if isinstance(x, (frozenset, set)):
         return sorted(x)
@@ -261,6 +273,8 @@ def check_accept(pairs, node, ctxname, concrete_reparse=True):
             d = diff_summary(ref_summary(r2), rs)
             if d:
                 out["c09"] = "(b) gen_decl() rendering %r denotes a different declaration: %s" % (text, d)
+                if attr_scalar_retyped(ref_summary(r2), rs):
+                    out["c09cat"] = "attr-scalar-retyped"
                 return out
         if not refd.is_ctor and not refd.is_dtor:
             # result / variable rendering without parameters
@@ -269,7 +283,7 @@ def check_accept(pairs, node, ctxname, concrete_reparse=True):
             nm = "SHC_rv"
             unwrap = decl.declarator is not None and decl.declarator.func is None
             if unwrap and not decl.array:
-                text2 = decl.gen_arg_as_cxx(name=nm, params=None)
+                text2 = decl.gen_arg_as_cxx(name=nm, params=None, with_template_args=True)
                 r3 = refdecl.read_declaration(real_tokens(text2), sym)
                 if norm_type(r3.type) != ret or r3.name != nm:
                     out["c09"] = "(b) gen_arg_as_cxx(params=None) rendering %r denotes %r, expected %r" % (
@@ -278,14 +292,16 @@ def check_accept(pairs, node, ctxname, concrete_reparse=True):
         for p, rp in zip(decl.params or [], rs["params"] or []):
             if p.declarator is None or p.init is not None:
                 continue
-            tx = p.gen_arg_as_cxx()
+            tx = p.gen_arg_as_cxx(with_template_args=True)
             r4 = refdecl.read_declaration(real_tokens(tx), sym)
             if norm_type(r4.type) != rp["type"] or r4.name != rp["name"]:
                 out["c09"] = "(b) gen_arg_as_cxx() rendering %r of parameter denotes %r, expected %r" % (
                     tx, jsonable(norm_type(r4.type)), jsonable(rp["type"]))
                 return out
             tm = p.template_arguments[0].typemap if p.template_arguments else p.typemap
-            if tm.c_type and tm.c_type == tm.cxx_type and not p.template_arguments:
+            nested_native = all(q.typemap.c_type == q.typemap.cxx_type and not q.template_arguments
+                                for q in (p.params or []))
+            if tm.c_type and tm.c_type == tm.cxx_type and not p.template_arguments and nested_native:
                 tc = p.gen_arg_as_c()
                 r5 = refdecl.read_declaration(real_tokens(tc), sym)
                 exp = as_c_type(rp["type"], lambda n: n)
@@ -309,24 +325,33 @@ def check_accept(pairs, node, ctxname, concrete_reparse=True):
     return out
 
 
+def safe_to_dict(node):
+    from shroud import todict
+    try:
+        return todict.to_dict(node)
+    except Exception as ex:     # Shroud's own dumper cannot describe what the parser accepted
+        return ("todict-error", type(ex).__name__)
+
+
 # ---------------------------------------------------------------------------- harness
 class ParseHarness(object):
-    def __init__(self, tier, n, prefix=(), ctx="lib", twin=False):
+    def __init__(self, tier, n, prefix=(), ctx="lib", twin=False, suffix=()):
         self.alpha = pc.Alphabet(pc.alphabet(tier))
         self.n = n
         self.prefix = [tuple(p) for p in prefix]
+        self.suffix = [tuple(p) for p in suffix]
         self.ctx = ctx
         self.twin = twin
 
     def run(self, e):
-        node, syms = pc.run_parser(e, self.alpha, self.prefix, self.n, self.ctx)
+        node, syms = pc.run_parser(e, self.alpha, self.prefix, self.n, self.ctx, suffix_pairs=self.suffix)
         for s in syms:
             s.realize()
         return node
 
     def judge(self, e, kind, value):
         m = e.model()
-        pairs = pc.witness_pairs(e, self.alpha, self.prefix, self.n, m)
+        pairs = pc.witness_pairs(e, self.alpha, self.prefix, self.n, m, self.suffix)
         text = pc.render(pairs)
         w = {"tokens": [list(p) for p in pairs], "text": text, "ctx": self.ctx}
         if kind == "exc":
@@ -346,7 +371,7 @@ class ParseHarness(object):
             if real_tokens(text) != [tuple(p) for p in pairs]:
                 raise AssertionError("rendered text tokenises differently")
             node2 = declast.Parser(text, pc.context(self.ctx)).decl_statement()
-            if todict.to_dict(node2) != todict.to_dict(value):
+            if safe_to_dict(node2) != safe_to_dict(value):
                 raise AssertionError("token-stub parse and real front-end parse differ")
         except Exception as ex:
             w.update({"property": "HARNESS", "what": "oracle error %s: %s" % (type(ex).__name__, ex),
@@ -360,6 +385,8 @@ class ParseHarness(object):
             return {"cls": "accepted/" + res["c17"][0], "violation": w, "vkey": violation_key(w)}
         if res["c09"]:
             w.update({"property": "C09", "what": res["c09"]})
+            if res.get("c09cat"):
+                w["category"] = res["c09cat"]
             return {"cls": "accepted/misread", "violation": w, "vkey": violation_key(w)}
         if res["ref"] != "ok":
             return {"cls": "accepted/outside-reference:" + res["ref"], "sample": w}
@@ -375,27 +402,76 @@ def T(*words):
     return real_tokens(" ".join(words))
 
 
+SEEDS = [
+    ("lib", "void foo ( int arg1 , double arg2 )"),
+    ("lib", "const std :: string & getName ( ) const"),
+    ("lib", "int ( * func ) ( int )"),
+    ("lib", "int * ( * func ) ( int * arg )"),
+    ("lib", "int callback1 ( int type , void ( * incr ) ( int ) )"),
+    ("lib", "int register_cb ( void ( * cb ) ( int ) )"),
+    ("lib", "const int * const * const var1"),
+    ("lib", "int * const volatile p"),
+    ("lib", "volatile unsigned long int x"),
+    ("lib", "char var2 [ 20 ] [ 10 ]"),
+    ("lib", "char * var1 +len ( 30 ) +intent ( out )"),
+    ("lib", "int * var1 +dimension ( n + 1 , m )"),
+    ("lib", "void f ( int a = 1 , bool b = true , double c = 1.5 )"),
+    ("lib", "std :: vector < int > & v +intent ( in )"),
+    ("lib", "void g ( const std :: vector < std :: string > & names )"),
+    ("lib", "Class1 * make ( ) +owner ( caller )"),
+    ("lib", "static extern int counter"),
+    ("lib", "typedef int TypeID2 ;"),
+    ("lib", "enum class Color2 { RED = 1 , BLUE , WHITE = RED + 2 * ( 3 - 1 ) , }"),
+    ("lib", "struct struct1 { int i ; double d [ 3 ] ; } ;"),
+    ("lib", "class Class2 : public Class1"),
+    ("lib", "namespace ns1"),
+    ("lib", "template < typename T , class U > void decl11 ( T arg , U * out )"),
+    ("lib", "template < typename T > class vector2"),
+    ("lib", "size_t strlen2 ( const char * s ) ;"),
+    ("lib", "void * foo ( ) const"),
+    ("lib", "long long var2"),
+    ("lib", "int & * var1"),
+    ("class", "Class1 ( int flag ) +name ( new )"),
+    ("class", "~ Class1 ( void )"),
+    ("class", "const Class1 & self ( ) const"),
+    ("class", "int m_ivar +readonly +name ( ivar )"),
+]
+
+
 def plan(tier):
     """List of (label, kwargs) explorations."""
     jobs = []
     nmax = 3 if tier == "quick" else 4
     for n in range(0, nmax + 1):
         jobs.append(("start/%d" % n, dict(tier=tier, n=n, prefix=[], ctx="lib")))
-    m = 2 if tier == "quick" else 3
-    prefixes = [
-        ("void f (", "lib"), ("void f ( int a ,", "lib"), ("int ( *", "lib"), ("std :: vector <", "lib"),
-        ("template < typename T >", "lib"), ("struct S {", "lib"), ("enum E {", "lib"),
-        ("const int *", "lib"), ("int x", "lib"), ("int f ( int a )", "lib"), ("int a +", "lib"),
-        ("enum E { A =", "lib"), ("int a [", "lib"), ("Class1 (", "class"), ("~", "class"),
-        ("class D :", "lib"), ("int * const", "lib"), ("void f ( int ( * cb ) (", "lib"),
-    ]
-    for text, ctx in prefixes:
-        for k in range(0, m + 1):
-            jobs.append(("after %r/%d" % (text, k), dict(tier=tier, n=k, prefix=T(text), ctx=ctx)))
-    if tier == "thorough":
-        jobs.append(("class-start/3", dict(tier=tier, n=3, prefix=[], ctx="class")))
-    else:
-        jobs.append(("class-start/2", dict(tier=tier, n=2, prefix=[], ctx="class")))
+    jobs.append(("class-start/%d" % (nmax - 1), dict(tier=tier, n=nmax - 1, prefix=[], ctx="class")))
+    # window mutations of seed declarations: tokens [i, i+j) replaced by k symbolic tokens
+    kmax = 1 if tier == "quick" else 2
+    jmax = 2
+    seen = set()
+    for ctx, text in SEEDS:
+        toks = T(text)
+        L = len(toks)
+        for i in range(0, L + 1):
+            for j in range(0, jmax + 1):
+                if i + j > L:
+                    continue
+                for k in range(1, kmax + 1):
+                    key = (ctx, tuple(toks[:i]), k, tuple(toks[i + j:]))
+                    if key in seen:
+                        continue
+                    seen.add(key)
+                    jobs.append(("seed %r [%d:%d]->%d sym" % (text, i, i + j, k),
+                                 dict(tier=tier, n=k, prefix=toks[:i], suffix=toks[i + j:], ctx=ctx)))
+        # every proper prefix followed by a symbolic tail
+        tail = 2 if tier == "quick" else 3
+        for i in range(1, L):
+            key = (ctx, tuple(toks[:i]), tail, ())
+            if key in seen:
+                continue
+            seen.add(key)
+            jobs.append(("prefix %r[:%d] + %d sym" % (text, i, tail),
+                         dict(tier=tier, n=tail, prefix=toks[:i], suffix=[], ctx=ctx)))
     return jobs
 
 
@@ -440,6 +516,7 @@ def replay_tokens(w):
     chk = check_accept(toks, node, ctx)
     res["c17"] = chk["c17"]
     res["c09"] = chk["c09"]
+    res["c09cat"] = chk.get("c09cat")
     res["ref"] = chk["ref"]
     return res
 
@@ -454,9 +531,13 @@ def violation_key(v):
     if v.get("exc"):
         site = v.get("site") or [None, None, None]
         return "internal/%s@%s:%s" % (v["exc"], site[1], site[2])
+    if v.get("property") == "C09":
+        if v.get("category"):
+            return "misread/" + v["category"]
+        return "misread/" + skeleton(v["what"])
     if v.get("category"):
         return "accept/%s/%s" % (v["category"], skeleton(v["what"]))
-    return "misread/" + skeleton(v["what"])
+    return "other/" + skeleton(v["what"])
 
 
 def confirm(pid, v):
@@ -482,8 +563,9 @@ def run_check(pid, tier, seed, rep, extra_cov=None):
     runs = []
     for (label, kw), a in zip(jobs, accs):
         total.merge(a)
-        runs.append({"exploration": label, "paths": a.stats.paths, "queries": a.stats.queries,
-                     "solver_s": round(a.stats.solver_s, 2), "classes": dict(a.counts)})
+        if len(runs) < 60 or a.nviol:
+            runs.append({"exploration": label, "paths": a.stats.paths, "queries": a.stats.queries,
+                         "solver_s": round(a.stats.solver_s, 2), "classes": dict(a.counts)})
         for msg in a.inconclusive:
             rep.inconc("%s: %s" % (label, msg))
     twin_ok = twin.stats.paths > 0 and not twin.inconclusive and \
@@ -529,7 +611,9 @@ def run_check(pid, tier, seed, rep, extra_cov=None):
                               "shroud.declast.Declaration.gen_decl / gen_arg_as_cxx / gen_arg_as_c, Declarator/Ptr.gen_decl_work",
                               "shroud.todict.to_dict, print_node"],
         "bounds": {"alphabet_size": len(pc.alphabet(tier)), "alphabet": [v for (_, v) in pc.alphabet(tier)],
-                   "explorations": [lbl for (lbl, _) in jobs],
+                   "explorations": len(jobs), "seed_declarations": [t for (_, t) in SEEDS],
+                   "shapes": "all sequences of <= N symbolic tokens from the start symbol; every window [i,i+j) (j<=2) of every seed "
+                             "declaration replaced by k symbolic tokens; every proper prefix of every seed followed by a symbolic tail",
                    "meaning": "every token sequence of exactly k symbolic tokens over the alphabet after each listed concrete prefix"},
         "solver": {"name": "z3 " + z3.get_version_string(), "queries": total.stats.queries, "solver_s": round(total.stats.solver_s, 2)},
         "outcome_classes": dict(total.counts),
